@@ -206,7 +206,8 @@ class Builder:
 
     def scenario(self, mode="seq", probe0=False, nodir=False, **extra):
         s = {"family": self.family, "contents": self.contents, "init": None if nodir else self.init,
-             "probe0": probe0, "mode": mode, "ops": self.ops}
+             "probe0": probe0, "mode": mode, "ops": self.ops,
+             "yield_us": self.rng.choice([0, 0, 0, 100, 600, 2000])}
         s.update(extra)
         return s
 
@@ -470,6 +471,8 @@ def shrink_candidates(s):
         yield dict(s, mode="seq")
     if s.get("probe0"):
         yield dict(s, probe0=False)
+    if s.get("yield_us"):
+        yield dict(s, yield_us=0)
     used = {str(o["cid"]) for o in ops if "cid" in o} | {str(c) for _, c in init}
     if len(used) < len(s["contents"]):
         yield dict(s, contents={k: v for k, v in s["contents"].items() if k in used})
